@@ -93,9 +93,9 @@ type BlockSite struct {
 type Locks struct {
 	p         *Prog
 	Classes   map[string]bool
-	Unknown   []string                     // lock operands whose class could not be resolved
-	held      map[ssa.Instruction]LockSet  // must-hold set before each instruction
-	Entry     map[*ssa.Function]LockSet    // must-hold set on entry
+	Unknown   []string                              // lock operands whose class could not be resolved
+	held      map[ssa.Instruction]LockSet           // must-hold set before each instruction
+	Entry     map[*ssa.Function]LockSet             // must-hold set on entry
 	Acq       map[*ssa.Function]map[string][]string // classes a function may acquire transitively → one witness chain
 	Order     map[[2]string][]OrderWitness
 	Blocking  []BlockSite
